@@ -21,6 +21,7 @@ META = {
 META["explanation"] += " " + "(ZB-past, shared with C01/C17) no raw access to the stream's buffer in the formatter is provably at or beyond Length(), or in front of started_at, on some path."
 META["explanation"] += " " + "(PR-point) in formatStringNumberFixed / formatStringNumberDefault every loop that skips zero digits while the decimal-point position is in scope is bounded by that position, and the count of zeros written back after a carry is not taken from the caller's estimated digit count."
 META["explanation"] += " " + '(LOSS-sticky) abstract paths through realToString: every shift or division that drops bits or digits of the big integer is followed, on every path to a formatter, by an assignment of the round-up flag (shifts by the trailing-zero count or by a literally-zero amount are lossless). (ROUND-lower) the flag handed to roundStringNumber includes a scan of the digits below the rounding position. (SHIFT-width, shared with C19) every shift of a BigInt word is by less than the word width.'
+META["explanation"] += " " + '(DOT-digit) every append of the decimal point is followed by an unconditional digit or by a run of `precision` zeros reached only where precision != 0 was established (must-analysis). (P0-map) NumberToString maps (Default, precision 0) to precision 1 before the number is formatted.'
 
 
 def run(ctx):
@@ -234,6 +235,8 @@ def run(ctx):
     from qlib.zone import ContractTable, Contract
     _t = {f_.q + "/%d" % len(f_.params): Contract(buffers={"f:storage_": "g:this|MaxIndex()+1"}, invariants=[("f:index_", "g:this|MaxIndex()", 0)]) for f_ in m.functions if f_.cls == "Qentem::BigInt" and not f_.inst and f_.cfg}
     rules.append(rule_shift_width(ctx, m, ContractTable(_t)))
+    rules.append(rule_dot_digit(ctx, m))
+    rules.append(rule_precision_zero(ctx, m))
     return rules
 
 
@@ -483,4 +486,116 @@ def rule_round_lower(ctx, m):
                         covered = True
             r.ob(f.q, f.text(c)[:70], covered, "the flag includes a scan of the digits below the rounding position" if covered else
                  "the flag `%s` says nothing about the digits of the string below the rounding position: when the string is longer than precision + 1 digits (the digit-count estimate is one short just above a power of ten) a value above a tie is rounded as an exact tie (116656 at %%.4g gives 1.166e+05)" % f.text(flag)[:40], f.loc(c))
+    return r
+
+
+
+def rule_dot_digit(ctx, m):
+    """DOT-digit: a decimal point is written only when at least one fraction digit follows it.  Every append of the point in the
+    formatters is followed (same block) by an unconditional append of a digit, or by a run of `precision` zeros that is reached
+    only where precision != 0 was established (must-analysis on the CFG: true edge of precision != 0, false edge of
+    precision == 0, also through format.Precision).  Inserting the point INTO the digits (InsertAt) always has digits behind it."""
+    from qlib import dataflow
+    r = Rule("DOT-digit", "a decimal point is appended only where a fraction digit follows", floor=4)
+    for q in ("Qentem::Digit::formatStringNumberFixed", "Qentem::Digit::formatStringNumberDefault", "Qentem::Digit::realToString"):
+        fs = [f for f in m.fns(q, required=False) if not f.inst and f.cfg]
+        if not fs:
+            r.broke("%s not found" % q)
+            continue
+        f = fs[0]
+        blocks = f.blocks()
+
+        def prec_test(c):
+            """True if the condition says precision != 0 when true, False if it says so when false, None otherwise"""
+            c = f.strip(c)
+            n = f.nodes[c]
+            if n["k"] == "UnaryOperator" and n["op"] == "!":
+                v = prec_test(n["ch"][0])
+                return None if v is None else (not v)
+            if n["k"] == "BinaryOperator" and n["op"] in ("!=", "==", ">"):
+                a, b = n["ch"]
+                ta, tb = f.text(a), f.text(b)
+                if ("recision" in ta and f.const_value(f.strip_casts(b)) == 0) or ("recision" in tb and f.const_value(f.strip_casts(a)) == 0 and n["op"] != ">"):
+                    return n["op"] in ("!=", ">")
+            return None
+        fact = {f.cfg["entry"]: False}
+        work = [f.cfg["entry"]]
+        at = {}
+        it = 0
+        while work and it < 8000:
+            it += 1
+            bid = work.pop()
+            st = fact[bid]
+            for e in blocks[bid]["el"]:
+                x = e.get("n")
+                if isinstance(x, int) and not e.get("k"):
+                    at[x] = st if x not in at else (at[x] and st)
+            for (s_, kind, payload) in dataflow.successors(f, blocks[bid]):
+                out = st
+                if kind in ("true", "false") and payload is not None:
+                    t = prec_test(payload)
+                    if t is not None and (kind == "true") == t:
+                        out = True
+                new_ = out if s_ not in fact else (fact[s_] and out)
+                if s_ not in fact or new_ != fact[s_]:
+                    fact[s_] = new_
+                    work.append(s_)
+        for b in f.cfg["blocks"]:
+            els = [e["n"] for e in b["el"] if isinstance(e.get("n"), int) and not e.get("k")]
+            for i, x in enumerate(els):
+                n = f.nodes[x]
+                is_dot = n["k"] in ("CompoundAssignOperator", "CXXOperatorCallExpr", "BinaryOperator") and n.get("op") == "+=" and f.text(x).replace(" ", "").endswith("+=Dot)")
+                if not is_dot:
+                    continue
+                ctx.note_fn(f)
+                # what follows in the same block
+                follow = None
+                for y in els[i + 1:]:
+                    yn = f.nodes[y]
+                    if yn["k"] in ("CompoundAssignOperator", "CXXOperatorCallExpr", "BinaryOperator") and yn.get("op") == "+=" and ("Zero" in f.text(y) or "One" in f.text(y)):
+                        follow = ("digit", y)
+                        break
+                    if yn["k"] in ("CallExpr", "CXXMemberCallExpr") and (f.call_simple_name(y) or "").startswith("insertZeros"):
+                        follow = ("zeros", y)
+                        break
+                if follow is None:
+                    ok, why = False, "nothing is appended after the point in this block"
+                elif follow[0] == "digit":
+                    ok, why = True, "a digit is appended unconditionally right after the point"
+                else:
+                    cnt = f.text(f.call_args(follow[1])[-1])
+                    ok = bool(at.get(x)) or "recision" not in cnt
+                    why = ("the run of `%s` zeros after the point is reached only where the precision is known not to be zero" % cnt) if ok else \
+                        "the point is followed by a run of `%s` zeros and nothing on the way here excludes precision 0: the text then ends in a bare point (1.5 at precision 0 prints `2.`)" % cnt
+                r.ob(f.q, f.text(x)[:40], ok, why, f.loc(x))
+    return r
+
+
+def rule_precision_zero(ctx, m):
+    """P0-map: C's %g takes a precision of zero as one; formatStringNumberDefault cannot work with zero (it keeps `precision`
+    digits and rounds at the one after them).  The dispatcher that hands a real number to realToString therefore maps
+    (Default, precision 0) to precision 1: in NumberToString a test of the format's precision against zero exists and on its
+    zero edge realToString is called with a format whose precision is a non-zero literal."""
+    r = Rule("P0-map", "the Default real format is never entered with precision 0 (mapped to 1 like %g)", floor=1)
+    fs = [f for f in m.functions if not f.inst and f.cfg and f.q == "Qentem::Digit::NumberToString" and any("RealFormatInfo" in p_["t"] for p_ in f.params)]
+    if not fs:
+        r.broke("Digit::NumberToString(stream, number, format) not found")
+        return r
+    for f in fs:
+        calls = astq.calls(f, "realToString")
+        if not calls:
+            continue
+        ctx.note_fn(f)
+        mapped = False
+        for i in astq.nodes_of(f, "IfStmt"):
+            ct = f.text(f.nodes[i]["cond"])
+            if "Precision" in ct and "== 0" in ct.replace("0U", "0"):
+                for c in astq.calls(f, "realToString", f.nodes[i]["then"]):
+                    args = f.call_args(c)
+                    last = f.text(args[-1]) if args else ""
+                    lits = [f.const_value(y) for y in f.walk(args[-1]) if f.const_value(y) is not None] if args else []
+                    if any(v and v > 0 for v in lits) and "format.Precision" not in last.replace("format.Precision ==", ""):
+                        mapped = True
+        r.ob(f.sig, "realToString(..., format)", mapped, "precision 0 in Default format is replaced by 1 before the number is formatted" if mapped else
+             "the format is handed on as it is: with precision 0 the Default formatter keeps no digit (2.5 prints as an empty string, 10.4 as `e+01`)", f.loc(calls[0]))
     return r
